@@ -11,7 +11,8 @@ SPEC = {
             "inputPrefix (counts add, gradients are the mean over all samples), and - for the plain 1-D configuration - the files of the whole word "
             "read by a simulation with bins twice as wide; after EVERY step the stored count and "
             "gradient of EVERY bin, the biasing force on the variables and the atomic force are compared with a reference "
-            "ABF (bin -> list of samples); states = distinct reference sample tables, transitions = steps",
+            "ABF (bin -> list of samples); states = distinct reference sample tables, transitions = steps"
+            " Later additions: two-variable configurations with subtractAppliedForce in only one of the variables.",
     "assumptions": ["system forces and positions are scripted; under the lagged convention the simulator adds Colvars' own forces "
                     "of the previous step to the total force, as NAMD does",
                     "periodic sub-case uses minSamples 0/fullSamples 1 (ramped and unramped zero-mean correction coincide)",
